@@ -41,6 +41,7 @@ struct Cluster {
   enum Kind { HD, VEC, COORD, OBS } kind = HD;
   std::vector<Obs> obs;               // VEC: triples dx,dy,dz (or pairs in 2D); COORD: x,y(,z) per point
   bool has_cov = false; QMat L; int band = 0;   // covariance C = L L' (mm^2), banded
+  bool has_C = false; QMat C;                   // explicit covariance (takes precedence over L L')
   std::string station;                // OBS
 };
 struct Pt { std::string id; Q x, y, z; bool has_xy = false, has_z = false; std::string fix, adj; bool give_xy = true, give_z = true; Q ax, ay, az; };
@@ -51,7 +52,7 @@ struct Spec {
   Pt* pt(const std::string& id) { for (auto& p : pts) if (p.id == id) return &p; return nullptr; }
 };
 
-inline QMat cov_of(const Cluster& c) { return qla::mul(c.L, qla::trans(c.L)); }
+inline QMat cov_of(const Cluster& c) { return c.has_C ? c.C : qla::mul(c.L, qla::trans(c.L)); }
 
 inline std::string gkf(const Spec& s) {
   std::ostringstream o;
